@@ -36,23 +36,29 @@ Definition t_ok (t : tparams) : bool :=
   (1 <=? t_len t) && (t_len t <=? t_n t) && (t_domain t mod t_len t =? 0) && (1 <=? t_nl t) && (t_nl t <=? t_size t).
 
 (* value (scaled by 2^(size*b)) of big-ring coefficient u of the table after set and a rotation by k *)
-Definition table_val (t : tparams) (k u : Z) : Z :=
-  let d := t_domain t in
-  let tt := u + t_drift t - k in
+Definition t_mult (t : tparams) : Z := t_scale t * 2 ^ ((t_size t - t_nl t) * t_b t).
+(* `mult` = t_mult t, `d` = t_domain t, `st` = t_step t, `dr` = t_drift t (computed once per record) *)
+Definition table_val_pre (f : list Z) (mult d st dr : Z) (k u : Z) : Z :=
+  let tt := u + dr - k in
   let q := tt / d in let r := tt mod d in
-  let x := nthZ (t_f t) (Z.to_nat (r / t_step t)) * t_scale t * 2 ^ ((t_size t - t_nl t) * t_b t) in
+  let x := nthZ f (Z.to_nat (r / st)) * mult in
   if Z.even q then x else - x.
+Definition table_val (t : tparams) (k u : Z) : Z :=
+  table_val_pre (t_f t) (t_mult t) (t_domain t) (t_step t) (t_drift t) k u.
 
-Definition congr (F x y : Z) : bool := (x - y) mod 2 ^ F =? 0.
-Definition digit_ok (b x : Z) : bool := Z.abs x <=? 2 ^ (b - 1).
+(* M = 2^F *)
+Definition congr (M x y : Z) : bool := (x - y) mod M =? 0.
+(* H = 2^(b-1) *)
+Definition digit_ok (H x : Z) : bool := Z.abs x <=? H.
 
 (* polynomial i (limb-major flat) of the table against the rule *)
 Definition poly_ok (t : tparams) (k : Z) (i : nat) (flat : list Z) : bool :=
   let n := Z.to_nat (t_n t) in let size := Z.to_nat (t_size t) in
-  let F := t_size t * t_b t in
+  let M := 2 ^ (t_size t * t_b t) in let H := 2 ^ (t_b t - 1) in let B := 2 ^ t_b t in
+  let tv := table_val_pre (t_f t) (t_mult t) (t_domain t) (t_step t) (t_drift t) k in
   Nat.eqb (length flat) (n * size) &&
-  forallb (digit_ok (t_b t)) flat &&
-  forallb (fun q : nat * list Z => congr F (limbs_val (t_b t) (snd q)) (table_val t k (Z.of_nat (fst q) * t_ext t + Z.of_nat i)))
+  forallb (digit_ok H) flat &&
+  forallb (fun q : nat * list Z => congr M (limbs_val_pre B (snd q)) (tv (Z.of_nat (fst q) * t_ext t + Z.of_nat i)))
           (combine (seq 0 n) (cols_of n (unflat n size flat))).
 
 Definition table_ok (t : tparams) (k : Z) (outs : list (list Z)) : bool :=
@@ -68,7 +74,7 @@ Definition ms_ok (n2 b : Z) (left : bool) (ls : list (list Z)) (res : list Z) : 
   let w := length (nth 0 ls []) in
   Nat.eqb (length res) w &&
   forallb (fun i : nat =>
-     let X := limbs_val b (map (fun l => nthZ l i) ls) in
+     let X := limbs_val_pre (2 ^ b) (map (fun l => nthZ l i) ls) in
      let sX := if left then - X else X in
      Z.abs (nthZ res i * 2 ^ K - sX * n2) <=? 2 ^ (K - 1) + (if 1 <? size then n2 * 2 ^ (K - b) else 0))
     (seq 0 w).
@@ -83,17 +89,25 @@ Definition binary (s : list Z) : bool := forallb (fun x => (x =? 0) || (x =? 1))
 
 Definition oracle_c14 (code : Z) (ps : list Z) (vs outs : list (list Z)) : Z :=
   match code with
-  | 14001 | 14002 =>
+  | 14001 =>
       let t := {| t_n := p ps 1; t_ext := p ps 2; t_b := p ps 3; t_klut := p ps 4; t_kmsg := p ps 5; t_f := v vs 0 |} in
-      if negb (t_ok t) then 2 else ob (table_ok t (if code =? 14001 then 0 else p ps 6) outs)
+      if negb (t_ok t) then 2 else ob (table_ok t 0 outs)
+  | 14002 =>
+      let t := {| t_n := p ps 1; t_ext := p ps 2; t_b := p ps 3; t_klut := p ps 4; t_kmsg := p ps 5; t_f := v vs 0 |} in
+      if negb (t_ok t) then 2 else
+      let e := Z.to_nat (t_ext t) in
+      ob (Nat.eqb (length outs) (length (v vs 1) * e) &&
+          forallb (fun q : nat * list Z => poly_ok t (nthZ (v vs 1) (fst q / e)) (fst q mod e) (snd q))
+                  (combine (seq 0 (length outs)) outs))
   | 14003 =>
       let t := {| t_n := p ps 1; t_ext := p ps 2; t_b := p ps 3; t_klut := p ps 4; t_kmsg := p ps 5; t_f := v vs 0 |} in
       if negb (t_ok t) then 2 else
-      let F := t_size t * t_b t in
+      let M := 2 ^ (t_size t * t_b t) in let H := 2 ^ (t_b t - 1) in let B := 2 ^ t_b t in
+      let tv := table_val_pre (t_f t) (t_mult t) (t_domain t) (t_step t) (t_drift t) in
       ob (Nat.eqb (length outs) (length (v vs 1)) &&
           forallb (fun q : Z * list Z =>
-                     Nat.eqb (length (snd q)) (Z.to_nat (t_size t)) && forallb (digit_ok (t_b t)) (snd q) &&
-                     congr F (limbs_val (t_b t) (snd q)) (table_val t (fst q) 0))
+                     Nat.eqb (length (snd q)) (Z.to_nat (t_size t)) && forallb (digit_ok H) (snd q) &&
+                     congr M (limbs_val_pre B (snd q)) (tv (fst q) 0))
                   (combine (v vs 1) outs))
   | 14004 =>
       (* the rule speaks about ciphertexts in normal form *)
@@ -107,12 +121,13 @@ Definition oracle_c14 (code : Z) (ps : list Z) (vs outs : list (list Z)) : Z :=
           let k := hd 0 l2n in
           let n := q_n q in
           let rs := Z.to_nat (div_ceil (q_kres q) (q_b q)) in
-          let F := t_size t * t_b t in
           let sh := (Z.of_nat rs - t_size t) * t_b t in
           if sh <? 0 then 2 else
+          let M := 2 ^ (t_size t * t_b t + sh) in let SH := 2 ^ sh in let B := 2 ^ t_b t in
+          let tv := table_val_pre (t_f t) (t_mult t) (t_domain t) (t_step t) (t_drift t) k in
           ob (Nat.eqb (length outs) (S (q_rank q)) &&
               forallb (forallb (Z.eqb 0)) (tl outs) &&
-              forallb (fun c : nat * list Z => congr (F + sh) (limbs_val (t_b t) (snd c)) (table_val t k (Z.of_nat (fst c) * t_ext t) * 2 ^ sh))
+              forallb (fun c : nat * list Z => congr M (limbs_val_pre B (snd c)) (tv (Z.of_nat (fst c) * t_ext t) * SH))
                       (combine (seq 0 n) (cols_of n (unflat n rs (v outs 0)))))
       end
   | 14020 =>
@@ -120,9 +135,10 @@ Definition oracle_c14 (code : Z) (ps : list Z) (vs outs : list (list Z)) : Z :=
       if negb (t_ok t && binary (v vs 2)) then 2 else
       let l2n := v outs 0 in
       let k := hd 0 l2n + dot (tl l2n) (v vs 2) in
-      let F := t_size t * t_b t in
+      let M := 2 ^ (t_size t * t_b t) in
+      let tv := table_val_pre (t_f t) (t_mult t) (t_domain t) (t_step t) (t_drift t) k in
       ob (Nat.eqb (length (v outs 1)) (q_n q) &&
-          forallb (fun c : nat * Z => congr F (snd c) (table_val t k (Z.of_nat (fst c) * t_ext t)))
+          forallb (fun c : nat * Z => congr M (snd c) (tv (Z.of_nat (fst c) * t_ext t)))
                   (combine (seq 0 (q_n q)) (v outs 1)))
   | _ => 2
   end.
